@@ -4,6 +4,7 @@ SPEC = {
         "AM.Config.validate_ok_wellformed", "AM.Config.illformed_rejected",
         "AM.Config.failed_reload_keeps_config", "AM.Config.invalid_reload_keeps_config", "AM.Config.successful_reload_applies",
         "AM.Config.secret_leaves_masked", "AM.Config.render_subset",
+        "AM.Config.print_load_stable_partial", "AM.Config.print_load_loses_empty_group_by",
         "AM.Config.firstErr_none_all", "AM.Config.receiversErr_none", "AM.Config.nodeErr_none",
     ],
     "engines": [
